@@ -140,7 +140,11 @@ func runWorker(bin string, job *sim.Job, race bool, watchdogS int) *workerResult
 	spec, _ := json.Marshal(job)
 	cmd := exec.Command(bin, "-test.run", "^TestSim$", "-test.timeout", "0")
 	cmd.Dir = simDir
-	extra := []string{"VERIF_JOB=" + string(spec), "GOMAXPROCS=" + envOr("VERIF_WORKER_GOMAXPROCS", "2")}
+	gmp := envOr("VERIF_WORKER_GOMAXPROCS", "2")
+	if job.Procs > 0 && os.Getenv("VERIF_WORKER_GOMAXPROCS") == "" {
+		gmp = strconv.Itoa(job.Procs)
+	}
+	extra := []string{"VERIF_JOB=" + string(spec), "GOMAXPROCS=" + gmp}
 	if race {
 		extra = append(extra, "GORACE=halt_on_error=1 exitcode=66")
 	}
@@ -368,6 +372,11 @@ func check(prop, tier string) int {
 		go func(p int) {
 			defer wg.Done()
 			job := &sim.Job{Mode: "run", Prop: prop, Tier: tier, Seed: seed, From: p, To: runs, Stride: procs, Known: known, BudgetMs: budgetMs, Announce: announce}
+			if scn.Race {
+				// the property quantifies over processor counts: the worker processes of one batch differ in GOMAXPROCS
+				// (the schedule itself is decided by the tape, whatever the count)
+				job.Procs = []int{1, 2, 2, 4}[p%4]
+			}
 			results[p] = runWorker(bin, job, scn.Race, 0)
 		}(p)
 	}
